@@ -10,6 +10,7 @@ import os
 import re
 import shutil
 import tempfile
+import time
 
 import common  # noqa: F401  (sets sys.path for codelimit)
 
@@ -40,13 +41,64 @@ EXT_LANG = {".py": "Python", ".js": "JavaScript", ".ts": "TypeScript", ".c": "C"
             ".java": "Java", ".cs": "C#"}
 
 
+# the languages Code Limit supports at the pinned commit (the property's "supported language")
+PINNED_LANGS = ["C", "C#", "C++", "Java", "JavaScript", "Python", "TypeScript"]
+_PYG = {}
+
+
 def expected_language(name):
+    """the property's "its name maps to a supported language": the pinned table for the classic pool; for every other
+    name the lexer Pygments (third party, not under check) picks for the bare file name, if it is one of PINNED_LANGS"""
     if name in NOEXT_LANG:
         return NOEXT_LANG[name]
-    for ext, lang in EXT_LANG.items():
-        if name.endswith(ext) and len(name) > len(ext):
-            return lang
-    return None
+    if re.fullmatch(r"[A-Za-z0-9_\[\]]+\.[a-z]+", name):
+        for ext, lang in EXT_LANG.items():
+            if name.endswith(ext) and len(name) > len(ext):
+                return lang
+    if name not in _PYG:
+        from pygments.lexers import get_lexer_for_filename
+        from pygments.util import ClassNotFound
+        try:
+            n = get_lexer_for_filename(name).name
+        except ClassNotFound:
+            n = None
+        _PYG[name] = n if n in PINNED_LANGS else None
+    return _PYG[name]
+
+
+# ------------------------------------------------------------------ name pools derived from Pygments / Unicode (harness/gen/names.py)
+
+_POOLS = {}
+
+
+def name_pools():
+    """{"lang": [(file name, language)] every name / extension Pygments maps to a supported language (`x.h`, `x.hh`,
+    `x.mjs`, `x.pyi`, `BUILD.bazel`, `SConscript`, ...), "siblings": {name: names with the same suffix that are NOT a
+    supported language}, "twins": [(NFC name, NFD name)], "awkward": [...], "twin_dirs": [(NFC, NFD)]}"""
+    if not _POOLS:
+        import unicodedata
+        from gen import names as gn
+        lang = []
+        for fn, lname, _others in gn.language_file_names("unit"):
+            if expected_language(fn) == lname:
+                lang.append((fn, lname))
+        _POOLS["lang"] = lang
+        _POOLS["siblings"] = {fn: gn.sibling_names(fn) for fn, _ in lang}
+        tw = []
+        for ext in (".py", ".js", ".c", ".h", ".cpp", ".java", ".ts"):
+            tw += gn.unicode_twins(ext)
+        _POOLS["twins"] = tw
+        aw = []
+        for ext in (".py", ".js", ".c"):
+            aw += [n for n in gn.awkward_names(ext) if "/" not in n and "\x00" not in n]
+        _POOLS["awkward"] = aw
+        _POOLS["twin_dirs"] = [(unicodedata.normalize("NFC", d), unicodedata.normalize("NFD", d)) for d in ("caf\u00e9", "m\u00fcll", "\uac00\uac01")]
+    return _POOLS
+
+
+def pool_stem(rnd, fn):
+    """`unit.hh` -> `<stem of the classic pool>.hh`; whole-name patterns (BUILD, SConscript) stay as they are"""
+    return rnd.choice(STEMS[:6]) + fn[4:] if fn.startswith("unit.") else fn
 
 
 # ------------------------------------------------------------------ file contents
@@ -60,20 +112,20 @@ def brace_function(head, n, marked=False):
 
 
 def source_for(ext, lengths, rnd=None):
-    """a small source file with one function per requested length (exact line counts)"""
+    """a small source file with one function per requested length (exact line counts); `ext` is an extension of the
+    classic pool or a whole file name (the language is then the one the name maps to)"""
+    lang = EXT_LANG.get(ext) or expected_language(ext if not ext.startswith(".") else "x" + ext)
     parts = []
     for i, n in enumerate(lengths):
         n = max(n, 3)
         mk = (i + n) % 4 == 1      # some functions carry the suppression marker: scan omits them, so must check
-        if ext == ".py":
+        if lang == "Python":
             parts.append(py_function("f%d" % i, n, mk))
-        elif ext in (".js", ".ts"):
+        elif lang in ("JavaScript", "TypeScript"):
             parts.append(brace_function("function f%d(a)" % i, n, mk))
-        elif ext in (".c", ".cpp", ".h"):
+        elif lang in ("C", "C++"):
             parts.append(brace_function("int f%d(int a)" % i, n, mk))
-        elif ext == ".java":
-            parts.append("class K%d {\n%s}\n" % (i, brace_function("  int f%d(int a)" % i, n, mk)))
-        elif ext == ".cs":
+        elif lang in ("Java", "C#"):
             parts.append("class K%d {\n%s}\n" % (i, brace_function("  int f%d(int a)" % i, n, mk)))
         else:
             parts.append("text %d\n" % i)
@@ -95,41 +147,107 @@ def gen_content(rnd, name):
         return b""
     k = rnd.choice([0, 1, 1, 2, 3])
     lengths = [rnd.choice([3, 5, 12, 29, 30, 31, 32, 45, 60, 61, 62, 75]) for _ in range(k)]
-    return source_for(ext, lengths)
+    return source_for(ext if ext in EXT_LANG else name, lengths)
 
 
 # ------------------------------------------------------------------ trees  ("D", name, [children]) | ("F", name, bytes)
 
 def gen_file_name(rnd):
     r = rnd.random()
-    if r < 0.62:
+    if r < 0.50:
         return rnd.choice(STEMS) + rnd.choice(SUPPORTED_EXT)
-    if r < 0.76:
+    if r < 0.62:
+        # every extension / whole file name Pygments maps to a supported language (`*.h` next to `*.hh`, `*.mjs`,
+        # `*.pyi`, `BUILD.bazel`, `SConscript`, ...): file-name-based language choice
+        return pool_stem(rnd, rnd.choice(name_pools()["lang"])[0])
+    if r < 0.67:
+        return rnd.choice(rnd.choice(name_pools()["twins"]))          # one spelling (NFC or NFD) of a decomposable name
+    if r < 0.70:
+        return rnd.choice(name_pools()["awkward"])
+    if r < 0.80:
         return rnd.choice(STEMS) + rnd.choice(UNSUPPORTED_EXT)
-    if r < 0.92:
-        return rnd.choice(NOEXT)
+    if r < 0.93:
+        return rnd.choice(NOEXT + ["AUTHORS", "NOTICE", "CHANGES", "BUCK", "SConscript", "BUILD.bazel", "defs.bazel"])
     return rnd.choice(HIDDEN_FILES)
 
 
 def gen_dir_name(rnd):
     r = rnd.random()
-    if r < 0.5:
+    if r < 0.44:
         return rnd.choice(PLAIN_DIRS)
+    if r < 0.5:
+        return rnd.choice(rnd.choice(name_pools()["twin_dirs"]))
     if r < 0.8:
         return rnd.choice(BUILTIN_DIRS)
     return rnd.choice(HIDDEN_DIRS)
 
 
-def gen_children(rnd, depth, max_depth):
+def gen_nested_gitignore(rnd, children):
+    """the text of a `.gitignore` placed in a SUB-directory: 1-3 lines drawn from the names below that directory
+    (bare file name, `*.ext`, `*suffix`, `sub/`, `/name`, rarely a negation), so that they would bite if they were
+    honoured. C11 / C12 name the ROOT .gitignore only; whatever scan does with a nested one, check must do too."""
+    files = [c for c, _ in all_files(("D", "", children)) if not spec_hidden(c)]
+    if not files:
+        return None
+    lines = []
+    for _ in range(rnd.choice([1, 1, 2, 3])):
+        comps = rnd.choice(files)
+        r = rnd.random()
+        if r < 0.35:
+            ext = os.path.splitext(comps[-1])[1]
+            lines.append("*" + ext if ext else comps[-1])
+        elif r < 0.6:
+            lines.append(comps[-1])
+        elif r < 0.75 and len(comps) > 1:
+            lines.append(comps[0] + "/")
+        elif r < 0.9:
+            lines.append("/" + comps[0])
+        else:
+            lines.append("!" + comps[-1])
+    lines = [l for l in lines if not any(ch in l[1:] for ch in "[]*?!#\\\t\"") or l.startswith("*.")]
+    lines = [l for l in lines if l.strip() == l and l]
+    return ("\n".join(lines) + "\n").encode("utf-8") if lines else None
+
+
+# interpretation decision (DESIGN.md Appendix A): streams that compare PRINTED paths (check's listing goes through rich, which
+# expands TAB for the terminal) do not use names with control characters (< U+0020); exact comparisons (scan keys) keep them
+DROPPED = {"names_with_control_characters": 0}
+
+
+def gen_children(rnd, depth, max_depth, printed_paths=False):
     names = set()
     out = []
     nf = rnd.choice([0, 1, 2, 2, 3, 4])
     for _ in range(nf):
         n = gen_file_name(rnd)
+        if printed_paths and any(ord(ch) < 0x20 for ch in n):
+            DROPPED["names_with_control_characters"] += 1
+            continue
         if n in names:
             continue
         names.add(n)
         out.append(("F", n, gen_content(rnd, n)))
+        r = rnd.random()
+        if r < 0.5:
+            # companions that share the decision a per-suffix / per-spelling shortcut would take: a name with the same
+            # suffix that is NOT a supported language (AUTHORS next to BUILD), the other spelling of a twin
+            comp = None
+            for a, b in name_pools()["twins"]:
+                if n in (a, b):
+                    comp = b if n == a else a
+            if comp is None and expected_language(n) is not None and not os.path.splitext(n)[1]:
+                sib = [x for x in name_pools()["siblings"].get(n, [])]
+                comp = rnd.choice(sib) if sib else None
+            if comp is not None and comp not in names:
+                names.add(comp)
+                out.append(("F", comp, gen_content(rnd, comp)))
+        elif r < 0.62 and expected_language(n) is not None:
+            # the SAME bytes under a name of ANOTHER language (a C source also compiled as C++, a vendored copy with a new
+            # extension): whatever is remembered per content instead of per (name, content) shows
+            other = rnd.choice(STEMS) + rnd.choice([e for e in SUPPORTED_EXT if EXT_LANG[e] != expected_language(n)])
+            if other not in names:
+                names.add(other)
+                out.append(("F", other, out[-1][2]))
     if depth < max_depth:
         nd = rnd.choice([0, 1, 1, 2, 3]) if depth < 2 else rnd.choice([0, 0, 1, 2])
         for _ in range(nd):
@@ -137,13 +255,18 @@ def gen_children(rnd, depth, max_depth):
             if n in names:
                 continue
             names.add(n)
-            out.append(("D", n, gen_children(rnd, depth + 1, max_depth)))
+            out.append(("D", n, gen_children(rnd, depth + 1, max_depth, printed_paths)))
+    if depth >= 2 and rnd.random() < 0.3:
+        gi = gen_nested_gitignore(rnd, out)
+        if gi is not None:
+            out.append(("F", ".gitignore", gi))
     rnd.shuffle(out)
     return out
 
 
-def gen_tree(rnd, max_depth=4, links=0.35):
-    tree = ("D", "root", gen_children(rnd, 1, max_depth))
+def gen_tree(rnd, max_depth=4, links=0.35, printed_paths=False):
+    """printed_paths: the tree is for a stream that compares paths as PRINTED by check (no names with control characters)"""
+    tree = ("D", "root", gen_children(rnd, 1, max_depth, printed_paths))
     if rnd.random() < links:
         add_links(rnd, tree)
     return tree
@@ -343,7 +466,10 @@ def gen_mutations(rnd, tree):
         elif names and r < 0.9:
             dst = rnd.choice(names)
             data = b"" if rnd.random() < 0.3 else d[rnd.choice(names)] if rnd.random() < 0.5 else gen_content(rnd, dst[-1])
-            ops.append(["write", list(dst), data.decode("latin-1")])
+            # the new content arrives with an OLD modification time (restored from a backup / another checkout, `cp -p`,
+            # `rsync -t`, an archive): "keep" = the time the file had, a number = that many seconds before now
+            when = rnd.choice([None, None, "keep", 7200, 86400 * 400])
+            ops.append(["write", list(dst), data.decode("latin-1")] + ([when] if when is not None else []))
             d[dst] = data
         elif names:
             src = rnd.choice(names)
@@ -375,8 +501,15 @@ def apply_mutations_fs(root, ops):
             else:
                 os.rename(src, dst)
         elif op[0] == "write":
-            with open(os.path.join(root, *op[1]), "wb") as f:
+            p = os.path.join(root, *op[1])
+            old = os.stat(p).st_mtime if os.path.exists(p) else None
+            with open(p, "wb") as f:
                 f.write(op[2].encode("latin-1"))
+            when = op[3] if len(op) > 3 else None
+            if when == "keep" and old is not None:
+                os.utime(p, (old, old))
+            elif isinstance(when, (int, float)):
+                os.utime(p, (time.time() - when, time.time() - when))
         elif op[0] == "delete":
             os.unlink(os.path.join(root, *op[1]))
 
@@ -434,8 +567,12 @@ def gen_patterns(rnd, tree=None):
                 out.append("/" + "/".join(comps[:2]))
             else:
                 out.append("/" + (rnd.choice(comps) if comps else rnd.choice(PLAIN_DIRS)))
-    # names with brackets are file/folder names only: in a pattern `[..]` would be a character class
-    return [p for p in out if "[" not in p]
+    # names with brackets (and the other characters gitignore gives a meaning to) are file/folder names only: in a
+    # pattern `[..]` would be a character class
+    def plain(p):
+        core = p[2:] if p.startswith("*.") else p[:-2] if p.endswith("/*") else p
+        return not any(ch in core for ch in "[]*?!#\\") and p.strip() == p
+    return [p for p in out if plain(p)]
 
 
 def pattern_matches(pat, comps):
@@ -677,7 +814,7 @@ def run_check(args):
         checkmod._read_file = orig
     listed = []
     count = None
-    for line in buf.getvalue().splitlines():
+    for line in buf.getvalue().split("\n"):      # not splitlines(): a file name may contain U+2028 / U+0085 / form feed
         m = _LINE.match(line)
         if m:
             listed.append((m.group(1), int(m.group(2)), int(m.group(3)), int(m.group(4)), m.group(6).rstrip()))
